@@ -456,9 +456,9 @@ Proof.
         unfold chunk_ok in Hok0. apply andb_true_iff in Hok0. destruct Hok0 as [Hb0 _]. apply N.leb_le in Hb0.
         unfold stored. rewrite len_sub by exact Hb0. now rewrite Hcu. }
     destruct Hd0 as [Hl0' (dict & ->)]. rewrite Hn, (decode_all_nodict dict None), Er. f_equal.
-    rewrite <- B3 in B4.
-    assert (Hd : takeN (c_ulen c0) (dpart st ++ out) = takeN (c_ulen c0) (d0 ++ r)) by (now rewrite B4).
-    rewrite !takeN_app_exact in Hd by congruence. rewrite Hd in B4. now apply app_inv_head in B4.
+    assert (Heq : dpart st ++ out = d0 ++ r) by (rewrite B4, B3, Eck; reflexivity).
+    assert (Hd : takeN (c_ulen c0) (dpart st ++ out) = takeN (c_ulen c0) (d0 ++ r)) by (now rewrite Heq).
+    rewrite !takeN_app_exact in Hd by congruence. rewrite Hd in Heq. now apply app_inv_head in Heq.
 Qed.
 
 (** ** T2.1 / T2.3, compression type 0 *)
